@@ -198,6 +198,19 @@ func runEXShapeN(c *load.Ctx, r *report.RuleResult, maxChildren int) {
 			pos := c.Pos(kind.fn.Pos())
 			for _, o := range outs {
 				val := o.ChoiceMap()
+				if tp, ok := o.Ret.(*pe.Tuple); ok && len(tp.E) == 2 && !pe.IsNil(tp.E[1]) && o.Undecided == "" && !o.Panicked {
+					// an error exit (a container that carries a types list, a failing child): nothing is written
+					// for the caller; which errors may leave is XF's business
+					hasWrite := false
+					for _, ef := range o.Effects {
+						if strings.HasPrefix(ef, "w:") {
+							hasWrite = true
+						}
+					}
+					if !hasWrite {
+						continue
+					}
+				}
 				var emitted []string
 				pattern := ""
 				for i := 0; i < n; i++ {
